@@ -1,80 +1,62 @@
-import PlumVerif.Props.C01
-import PlumVerif.Model.ReaderSession
+import PlumVerif.Props.C01SessionBytes
 /-
 C01 on a reader object that is used again after calls ended abnormally (time-out, cancellation).
+
+Headline (round-8 audit, item 10): `session_calls_are_reads_of_the_fed_bytes`, `session_delivered_bytes` — every
+completed call ran on the bytes fed so far, from the position the earlier calls (completed or abandoned) stopped at;
+a delivery is justified by the bytes THAT call consumed out of them.  The older statements, which tied only the
+NUMBER of bytes to the session (`session_calls_are_reads`, `session_delivered_only_if_well_formed`), are corollaries.
 -/
 namespace PlumVerif.C01
 open PlumVerif
 
-theorem completedFuel_calls (fuel : Nat) (s : List Byte) :
-    ∀ p ∈ (completedFuel fuel s).1, ∃ s', (readFrame s').1 = p.1 ∧ p.2 = s'.length - (readFrame s').2.length := by
-  induction fuel generalizing s with
-  | zero => intro p hp; simp [completedFuel] at hp
-  | succ k ih =>
-    intro p hp
-    unfold completedFuel at hp
-    split at hp
-    · simp at hp
-    · simp only [List.mem_cons] at hp
-      rcases hp with rfl | hp
-      · exact ⟨s, rfl, rfl⟩
-      · exact ih _ p hp
+/-- **every completed call of a session is `readFrame` on the bytes of the session**: when the events are
+`evs₁ ++ .call o n :: evs₂`, the chunks fed by then (`cs₁`, a prefix of the chunks) are `pre ++ consumed ++ post` with
+`|pre|` = what the earlier events took, `|consumed| = n`, `readFrame (consumed ++ post) = (o, post)`.  The reader object
+carries nothing but the stream position from one call to the next. -/
+theorem session_calls_are_reads_of_the_fed_bytes (chunks : List (List Byte))
+    (evs₁ evs₂ : List SEv) (o : Outcome) (n : Nat)
+    (h : session chunks = evs₁ ++ .call o n :: evs₂) :
+    ∃ cs₁ cs₂, chunks = cs₁ ++ cs₂ ∧ CallAt cs₁.flatten (takenSum evs₁) o n := by
+  unfold session at h
+  rw [sessionFrom_eq_sessionX] at h
+  obtain ⟨st₁, st₂, hs, hc⟩ := sessionX_calls_are_reads_of_the_fed_bytes _ [] evs₁ evs₂ o n h
+  obtain ⟨cs₁, cs₂, hcs, hf⟩ := stepsOf_prefix chunks st₁ st₂ hs
+  exact ⟨cs₁, cs₂, hcs, by simpa [hf] using hc⟩
 
-theorem readAllFuel_calls (fuel : Nat) (s : List Byte) :
-    ∀ p ∈ readAllFuel fuel s, ∃ s', (readFrame s').1 = p.1 ∧ p.2 = s'.length - (readFrame s').2.length := by
-  induction fuel generalizing s with
-  | zero => intro p hp; simp [readAllFuel] at hp
-  | succ k ih =>
-    intro p hp
-    unfold readAllFuel at hp
-    split at hp
-    rename_i o r hrf
-    split at hp
-    · simp only [List.mem_singleton] at hp
-      subst hp
-      exact ⟨s, by simp [hrf], by simp [hrf]⟩
-    · simp only [List.mem_cons] at hp
-      rcases hp with rfl | hp
-      · exact ⟨s, by simp [hrf], by simp [hrf]⟩
-      · exact ih _ p hp
+/-- **C01 on a re-used reader, on the bytes**: whatever was abandoned before, a frame handed out by a later call is
+justified by the bytes THAT call consumed: they lie in the chunks fed so far exactly behind what the earlier calls took
+(`|pre| = takenSum evs₁`), and they are delimiter-free noise followed by bytes that satisfy the statement for exactly the
+delivered fields. -/
+theorem session_delivered_bytes (chunks : List (List Byte)) (evs₁ evs₂ : List SEv) (f : Fields) (n : Nat)
+    (h : session chunks = evs₁ ++ .call (.delivered f) n :: evs₂) :
+    ∃ cs₁ cs₂ pre noise fr post, chunks = cs₁ ++ cs₂ ∧
+      cs₁.flatten = pre ++ (noise ++ fr) ++ post ∧ pre.length = takenSum evs₁ ∧
+      (noise ++ fr).length = n ∧ (0x68 : Byte) ∉ noise ∧ wf fr f = true := by
+  obtain ⟨cs₁, cs₂, hs, pre, consumed, post, hfed, hk, hn, hrf⟩ :=
+    session_calls_are_reads_of_the_fed_bytes chunks evs₁ evs₂ _ n h
+  obtain ⟨noise, fr, hcp, hno, hwf⟩ := delivered_only_if_well_formed hrf
+  have hc : consumed = noise ++ fr := List.append_cancel_right hcp
+  exact ⟨cs₁, cs₂, pre, noise, fr, post, hs, by rw [← hc]; exact hfed, hk, by rw [← hc]; exact hn, hno, hwf⟩
 
-/-- every call of a session -- before or after any number of abandoned calls -- is one call of
-`readFrame` on some byte stream: the reader object carries nothing from one call to the next -/
+/-- corollary (the older form): every call of a session -- before or after any number of abandoned calls -- is one call
+of `readFrame` on some byte stream -/
 theorem session_calls_are_reads (pending : List Byte) (chunks : List (List Byte)) :
     ∀ o n, SEv.call o n ∈ sessionFrom pending chunks →
       ∃ s', (readFrame s').1 = o ∧ n = s'.length - (readFrame s').2.length := by
-  induction chunks generalizing pending with
-  | nil =>
-    intro o n h
-    simp only [sessionFrom, List.mem_map] at h
-    obtain ⟨p, hp, hpe⟩ := h
-    injection hpe with h1 h2
-    subst h1; subst h2
-    exact readAllFuel_calls _ _ p hp
-  | cons c cs ih =>
-    intro o n h
-    simp only [sessionFrom, List.mem_append, List.mem_map, List.mem_singleton] at h
-    rcases h with (⟨p, hp, hpe⟩ | h) | h
-    · injection hpe with h1 h2
-      subst h1; subst h2
-      exact completedFuel_calls _ _ p hp
-    · cases h
-    · exact ih _ o n h
+  intro o n h
+  rw [sessionFrom_eq_sessionX] at h
+  obtain ⟨e1, e2, he⟩ := List.append_of_mem h
+  obtain ⟨_, _, _, hc⟩ := sessionX_calls_are_reads_of_the_fed_bytes _ pending e1 e2 o n he
+  exact hc.is_read
 
-/-- **C01 on a re-used reader**: whatever was abandoned before, a frame handed out by a later
-call is justified by the bytes THAT call consumed: delimiter-free noise followed by bytes that
-satisfy the statement for exactly the delivered fields. -/
+/-- corollary (the older form, lengths only) of `session_delivered_bytes` -/
 theorem session_delivered_only_if_well_formed (chunks : List (List Byte)) (f : Fields) (n : Nat)
     (h : SEv.call (.delivered f) n ∈ session chunks) :
     ∃ noise fr, n = (noise ++ fr).length ∧ (0x68 : Byte) ∉ noise ∧ wf fr f = true := by
-  obtain ⟨s', ho, hn⟩ := session_calls_are_reads [] chunks _ _ h
-  have hrf : readFrame s' = (.delivered f, (readFrame s').2) := by
-    rw [← ho]
-  obtain ⟨noise, fr, hs, hno, hwf⟩ := delivered_only_if_well_formed hrf
-  refine ⟨noise, fr, ?_, hno, hwf⟩
-  have hl := congrArg List.length hs
-  simp only [List.length_append] at hl ⊢
-  omega
+  obtain ⟨e1, e2, he⟩ := List.append_of_mem h
+  obtain ⟨_, _, _, noise, fr, _, _, _, _, hn, hno, hwf⟩ := session_delivered_bytes chunks e1 e2 f n he
+  exact ⟨noise, fr, hn.symm, hno, hwf⟩
 
 /-- non-vacuity, and the scenario that matters: a call is abandoned after it took the start
 delimiter (the rest of the header never came); the bytes that arrive later begin with a short
@@ -84,5 +66,13 @@ example : session [[0x68], [0x68, 0x03, 0x00, 0x56, 0x45, 0x30, 0x6b,
                           0x68, 0x0a, 0x00, 0x56, 0x45, 0x30, 0x05, 0x40, 0x04, 0x16]] =
     [.abandoned 1, .call (.protoErr .badLength) 7, .call (.delivered ⟨0x40, 0x56, 0x45, 0x30, 0x05, []⟩) 10,
      .abandoned 0, .call .connLost 0] := by decide
+
+/-- the same history read through `session_calls_are_reads_of_the_fed_bytes`: the delivery is the call at position
+1 + 7 = 8 of the 18 bytes fed, it took the last 10 of them and nothing lay behind -/
+example : CallAt ([[0x68], [0x68, 0x03, 0x00, 0x56, 0x45, 0x30, 0x6b,
+                          0x68, 0x0a, 0x00, 0x56, 0x45, 0x30, 0x05, 0x40, 0x04, 0x16]] : List (List Byte)).flatten
+    (takenSum [.abandoned 1, .call (.protoErr .badLength) 7]) (.delivered ⟨0x40, 0x56, 0x45, 0x30, 0x05, []⟩) 10 :=
+  ⟨[0x68, 0x68, 0x03, 0x00, 0x56, 0x45, 0x30, 0x6b], [0x68, 0x0a, 0x00, 0x56, 0x45, 0x30, 0x05, 0x40, 0x04, 0x16], [],
+   by decide, by decide, by decide, by decide⟩
 
 end PlumVerif.C01
